@@ -27,7 +27,7 @@ PROP = dict(
     ],
     assumptions=[
         "confirmed crashes with a fix pending are gated by start-up probes (fecorpus::GATES: D53 stack overflow on `fn f() { f }`, "
-        "D54 implement for an unknown type, D55 `!` in a default value, D56 Try impl without `branch`, F5 method of an interface "
+        "D54 implement for an unknown type, D55 `!` in a default value, D56 Try impl without `branch`, D57 method of an interface "
         "without implementations): while a probe still crashes, crashes at the site it reports are counted under its id and named "
         "in a note; a probe that stops crashing gates nothing",
         "only the main file is damaged; imports of the corpus programs are left unresolved",
@@ -39,7 +39,7 @@ PROP = dict(
                "rest of the property (parser recovery, checker on partial ASTs) is a crash search: every query at every byte offset "
                "of prefixes, mutations and garbage, with process isolation so that stack overflows and hangs are caught as well.",
     level_note="partial by design: no model of the checker's behaviour on partial ASTs; absence of crashes outside the modelled "
-               "parts is searched, not proved. The search found five crashing inputs on the pinned tree (D53-D56, F5), all in "
+               "parts is searched, not proved. The search found five crashing inputs on the pinned tree (D53-D57), all in "
                "abra_core::check itself.",
     technique="Lean 4 theorems (induction over the backward scan, core UTF-8 position lemmas; corollary of the C35 search "
               "theorems) + process-isolated crash search over prefixes/mutations/garbage at every byte offset + model tie of the "
